@@ -258,11 +258,11 @@ def run(F, rep):
     import core
     import c16
     if not getattr(rep, 'nested', False):
-        c16.run(F, core.Borrowed(rep, only={'C16.N1', 'C16.G1', 'C16.U2'}))
+        core.borrow(F, rep, c16, only={'C16.N1', 'C16.G1', 'C16.U2'})
     # the hierarchy predicates the validator relies on for connections (siblings / parent-child) compare owners: clause shared with C09
     import c09
     if not getattr(rep, 'nested', False):
-        c09.run(F, core.Borrowed(rep, only={'C09.Q1'}))
+        core.borrow(F, rep, c09, only={'C09.Q1'})
 
     # ------------------------------------------------------------------ W: walks over the component tree are complete
     import recursion as _recw
